@@ -360,10 +360,20 @@ def fixed_scenarios():
                     'scripts': {'first': SHAPES['straight'], 'second': SECOND,
                                 'bg': BACKGROUND},
                     'clients': [ops]})
+    # stop-all while another job waits in the queue: whatever the requester
+    # does first, the waiting job must not get to run
+    ops = [['add', 'first'], ['add', 'second'], ['await_running', 'first'],
+           ['steps', 10], ['stop_all'], ['wait_idle', 40]]
+    out.append({'population': POP, 'shape': 'infinite', 'tick': 0.25,
+                'work': {'set_power': 0}, 'start': [7, 58, 30],
+                'scripts': {'first': SHAPES['infinite'], 'second': SECOND,
+                            'bg': BACKGROUND},
+                'clients': [ops]})
     return out
 
 
 RACE_WITH_END = (5, 6, 7, 8)     # indexes in fixed_scenarios()
+QUICK_ENUMERATED = RACE_WITH_END + (9,)
 
 
 def enumerate_fixed(acc, index, part, parts, depth):
@@ -485,7 +495,7 @@ def plan(tier, seed_value):
         specs.append({'kind': 'random', 'seed': seed_value * 1000 + k,
                       'examples': per})
     for index in range(len(fixed_scenarios())):
-        if tier == 'thorough' or index in RACE_WITH_END:
+        if tier == 'thorough' or index in QUICK_ENUMERATED:
             for part in range(8):
                 specs.append({'kind': 'enumerate', 'index': index,
                               'part': part, 'parts': 8, 'depth': 1})
